@@ -569,6 +569,9 @@ func gen(tier string, rng *h.Rng, emit func(string)) {
 		}
 	}
 
+	// ---------------- kyber-level operations on raw operands (translated point.go)
+	genKyber(tier, rng, emit)
+
 	// ---------------- API programs
 	for _, p := range directedAPI() {
 		emit("api " + p)
